@@ -269,12 +269,3 @@ pub fn c07_k_extensions_present_iff_supplied() {
     let out2 = mc2.serialize().unwrap();
     assert!(out2.len() == 38 && out2[37] == 0xA0, "C07: a supplied (empty) extension map must be present");
 }
-
-/// capacity frontier (quick): total 676 fits exactly, 677 and 678 must fail (never shortened data)
-#[kani::proof]
-#[kani::unwind(702)]
-pub fn c07_k_capacity_frontier_quick() {
-    frontier(544, 77); // 676
-    frontier(545, 77); // 677
-    frontier(546, 77); // 678
-}
